@@ -14,6 +14,7 @@ for id in "${ids[@]}"; do
     C10-8|C15-8) checks="C12" ;;
     C16-8) checks="C03" ;;
     C04-10) checks="C04 C01" ;;
+    C01-11) checks="C03" ;;
     C10-10) checks="C10 C05" ;;
     *) checks="$P" ;;
   esac
